@@ -32,6 +32,7 @@ import (
 //	"none"     nobody ever acts (until the harness frees a blocked call after having made its observations)
 //	"gated"    a peer that acts only when the harness opens a gate (after the call is seen blocked)
 //	"delayed"  a peer that acts after PeerDelayUs, racing with the limit
+//	"closer"   (receivers only) a peer that CLOSES the channel after PeerDelayUs, racing with the limit
 type TCase struct {
 	Fn          string `json:"fn"`
 	Cap         int    `json:"cap"`
@@ -70,6 +71,8 @@ func expect(c TCase) (outcome int, block bool, why string) {
 		return +1, false, "operation can complete immediately and nothing limits the call"
 	case ready:
 		return 0, false, "operation and limit may both be ready" // short / race / before / later
+	case c.Peer == "closer":
+		return -1, false, "nothing is ever sent: whether the limit or the close comes first, the call must report false"
 	case c.Peer == "delayed":
 		if unlimited {
 			return +1, false, "peer arrives eventually and nothing limits the call"
@@ -144,6 +147,12 @@ func RunTimed(c TCase) pbt.Outcome {
 				peerMu.Unlock()
 			case <-stopPeer:
 			}
+		}()
+	case c.Peer == "closer":
+		go func() {
+			defer close(peerDone)
+			time.Sleep(time.Duration(c.PeerDelayUs) * time.Microsecond)
+			close(ch)
 		}()
 	default: // sending peer: sends ONE value 2000 when allowed
 		go func() {
@@ -360,7 +369,16 @@ func genTimed(t *rapid.T) TCase {
 	if c.Limit == "race" || c.Limit == "neg" {
 		c.DelayUs = rapid.SampledFrom([]int{0, 20, 80, 300}).Draw(t, "delay")
 	}
-	if c.Peer == "delayed" {
+	if !isSend(c.Fn) && !c.Closed && c.Fill == 0 && rapid.IntRange(0, 3).Draw(t, "closer") == 0 {
+		c.Peer = "closer"
+		if c.Limit == "race" { // make close and expiry land together
+			c.PeerDelayUs = c.DelayUs + rapid.SampledFrom([]int{-2, 0, 0, 1, 3, 50}).Draw(t, "skew")
+			if c.PeerDelayUs < 0 {
+				c.PeerDelayUs = 0
+			}
+		}
+	}
+	if c.Peer == "delayed" || (c.Peer == "closer" && c.Limit != "race") {
 		c.PeerDelayUs = rapid.SampledFrom([]int{0, 20, 80, 300}).Draw(t, "peerdelay")
 	}
 	if c.Limit == "long" && c.Peer == "none" {
@@ -371,7 +389,7 @@ func genTimed(t *rapid.T) TCase {
 
 var specTimed = pbt.Register(&pbt.Spec[TCase]{
 	Property: "C19", Name: "C19.timed",
-	Rule: "E5 scenarios: fn in {SendTimeout,SendContext,RecvTimeout,RecvContext} x capacity 0..3 x fill x closed? x limit {<=0, 1ms, 1h, racing timer; ctx never/before/cancelled-once-blocked/racing} x peer {none, gated, delayed-racing}. " +
+	Rule: "E5 scenarios: fn in {SendTimeout,SendContext,RecvTimeout,RecvContext} x capacity 0..3 x fill x closed? x limit {<=0, 1ms, 1h, racing timer; ctx never/before/cancelled-once-blocked/racing} x peer {none, gated, delayed-racing, closing the channel around the expiry (receivers)}. " +
 		"Oracle: conservation on the far side (Send true <=> the value is found exactly once in peer receptions + buffer, false <=> not found; Recv (v,true) <=> v was the FIFO head and left the channel, (zero,false) <=> contents unchanged), " +
 		"forced outcomes in the asymmetric classes (space & unlimited => true; nobody ever acts & 1ms/cancelled => false; closed+drained => false), 'must not return yet' asserted only while the harness itself withholds the peer " +
 		"(established from the call's goroutine state, never from a timer); either outcome where operation and limit can both be ready; non-trivial = forced-false, either-outcome or must-block class",
